@@ -37,6 +37,7 @@ template<class T, int CAP> struct __bigflat {
   void __clear() { n = 0; }
   T& __at(long i) { T* r = p[0]; for (int k = 1; k < CAP; k++) if (i == k) r = p[k]; return *r; }
   const T& __at(long i) const { const T* r = p[0]; for (int k = 1; k < CAP; k++) if (i == k) r = p[k]; return *r; }
+  T __get(long i) const { T r = *p[0]; for (int k = 1; k < CAP; k++) if (i == k) r = *p[k]; return r; }
 };
 template<class T> requires __big<T>::v struct vector<T> : __bigflat<T, __cap<T>::v> {
   static constexpr int VCAP = __cap<T>::v;
@@ -55,5 +56,83 @@ template<class T> requires __big<T>::v struct vector<T> : __bigflat<T, __cap<T>:
   size_t size() const { return n; } bool empty() const { return n == 0; }
   iterator begin() { return iterator(this, 0); } iterator end() { return iterator(this, n); }
   const_iterator begin() const { return const_iterator(this, 0); } const_iterator end() const { return const_iterator(this, n); }
+};
+
+// ---- vectors of SMALL class-type elements that the code under test pushes / inserts / erases at symbolic positions (Token, ParseError).
+// Same flat representation as the base model (n, u.d[CAP]; trivially copyable), same assertions; the only difference is the FORM of
+// the element moves: a store to position i is written as "for every constant k: if (k == i) d[k] = x" and a read that feeds a store is
+// a by-value selection among the CAP elements, so that no store goes through a pointer with a symbolic offset (the base model's
+// new(&__at(i)) T(x) does, and CBMC then rewrites the whole enclosing object byte-wise; measured 100 MB of SSA for one small run).
+template<class T> struct __aform { static constexpr bool v = false; };
+template<> struct __aform<Theo::Token> { static constexpr bool v = true; };
+template<> struct __aform<Theo::ParseError> { static constexpr bool v = true; };
+template<class F2, class E2> E2 __itget(const __iter<F2, E2>& f, long k) { return f.c->__get(f.i + k); }
+template<class T> const T& __itget(const T* f, long k) { return f[k]; }
+template<class T> requires __aform<T>::v struct vector<T> : __flat<T, __cap<T>::v> {
+  static constexpr int VCAP = __cap<T>::v;
+  typedef __flat<T, VCAP> F;
+  using F::n; using F::u; using F::__at;
+  typedef __iter<vector, T> iterator; typedef __iter<const vector, const T> const_iterator; typedef size_t size_type; typedef T value_type;
+  T __get(long i) const { T r = u.d[0]; for (int k = 1; k < VCAP; k++) if (i == k) r = u.d[k]; return r; }
+  vector() {}
+  vector(initializer_list<T> l) { for (const T* q = l.begin(); q != l.end(); ++q) push_back(*q); }
+  void push_back(const T& x) { __CPROVER_assert(n < VCAP, "ministl: vector capacity (model bound)"); for (int k = 0; k < VCAP; k++) if (k == n) new (&u.d[k]) T(x); n++; }
+  void pop_back() { __CPROVER_assert(n > 0, "ministl: pop_back on empty vector (UB)"); n--; }
+  void clear() { n = 0; }
+  T& back() { __CPROVER_assert(n > 0, "ministl: back() on empty vector (UB)"); return __at(n - 1); }
+  const T& back() const { __CPROVER_assert(n > 0, "ministl: back() on empty vector (UB)"); return __at(n - 1); }
+  T& front() { __CPROVER_assert(n > 0, "ministl: front() on empty vector (UB)"); return u.d[0]; }
+  T& operator[](size_t i) { __CPROVER_assert(i < (size_t)n, "ministl: vector index out of range (UB)"); return __at((long)i); }
+  const T& operator[](size_t i) const { __CPROVER_assert(i < (size_t)n, "ministl: vector index out of range (UB)"); return __at((long)i); }
+  size_t size() const { return n; } bool empty() const { return n == 0; }
+  iterator begin() { return iterator(this, 0); } iterator end() { return iterator(this, n); }
+  const_iterator begin() const { return const_iterator(this, 0); } const_iterator end() const { return const_iterator(this, n); }
+  // insert [f,l) before at: shift the tail up by m (highest index first, reading positions not yet overwritten), then copy the new elements in
+  template<class It> void insert(iterator at, It f, It l) {
+    int a = at.i; int m = (int)(l - f);
+    __CPROVER_assert(a >= 0 && a <= n, "ministl: insert position outside vector (UB)"); __CPROVER_assert(m >= 0 && n + m <= VCAP, "ministl: vector capacity (model bound)");
+    for (int j = VCAP - 1; j >= 0; j--) if (m > 0 && j >= a + m && j < n + m) new (&u.d[j]) T(__get(j - m));
+    for (int j = 0; j < VCAP; j++) if (j >= a && j < a + m) new (&u.d[j]) T(__itget(f, j - a));
+    n += m; }
+  iterator insert(iterator at, const T& x) { const T* q = &x; insert(at, q, q + 1); return at; }
+  // erase [f,l): move the tail down (lowest index first, reading positions not yet overwritten)
+  void erase(iterator f, iterator l) {
+    int a = f.i, e = l.i, k = e - a;
+    __CPROVER_assert(a >= 0 && a <= e && e <= n, "ministl: erase range outside vector (UB)");
+    for (int j = 0; j < VCAP; j++) if (k > 0 && j >= a && j + k < n) new (&u.d[j]) T(__get(j + k));
+    n -= k; }
+  iterator erase(iterator at) { erase(at, at + 1); return at; }
+};
+
+// ---- map whose mapped values are vectors of large elements (the priority bins map<int, vector<MacroDetector>> of apply_macros).
+// Slots live in separately allocated objects in insertion order; the position of a slot in the iteration order is its RANK (number of
+// smaller keys), so begin()..end() / rbegin()..rend() enumerate the keys in ascending / descending order exactly like std::map, and no
+// slot is ever moved.  Same interface and assertions as the base model's map.
+template<class V> struct __bigmapv { static constexpr bool v = false; };
+template<> struct __bigmapv<vector<MacroDetector>> { static constexpr bool v = true; };
+template<class K, class V> requires __bigmapv<V>::v struct map<K, V> {
+  typedef pair<K, V> value_type; typedef pair<K, V> slot;
+  static constexpr int MCAP = __mcap<K, V>::v; static constexpr int FCAP = MCAP;
+  int n; slot* p[MCAP];
+  map() : n(0) { for (int k = 0; k < MCAP; k++) p[k] = (slot*)::operator new(sizeof(slot)); }
+  map(const map& o) : n(0) { for (int k = 0; k < MCAP; k++) { p[k] = (slot*)::operator new(sizeof(slot)); if (k < o.n) new (p[k]) slot(*o.p[k]); } n = o.n; }
+  map& operator=(const map& o) { if (this != &o) { for (int k = 0; k < MCAP; k++) if (k < o.n) new (p[k]) slot(*o.p[k]); n = o.n; } return *this; }
+  typedef __iter<map, slot> iterator; typedef __iter<const map, const slot> const_iterator; typedef __riter<map, slot> reverse_iterator;
+  static bool __eqk(const K& a, const K& b) { return !(a < b) && !(b < a); }
+  int __rank(int k) const { int r = 0; for (int j = 0; j < MCAP; j++) if (j < n && p[j]->first < p[k]->first) r++; return r; }
+  int lower(const K& key) const { int r = 0; for (int j = 0; j < MCAP; j++) if (j < n && p[j]->first < key) r++; return r; }
+  bool __has(const K& key) const { bool h = false; for (int j = 0; j < MCAP; j++) if (j < n && __eqk(p[j]->first, key)) h = true; return h; }
+  slot& __at(long i) { slot* r = p[0]; for (int k = 1; k < MCAP; k++) if (k < n && __rank(k) == i) r = p[k]; return *r; }
+  const slot& __at(long i) const { const slot* r = p[0]; for (int k = 1; k < MCAP; k++) if (k < n && __rank(k) == i) r = p[k]; return *r; }
+  void clear() { n = 0; }
+  iterator begin() { return iterator(this, 0); } iterator end() { return iterator(this, n); }
+  const_iterator begin() const { return const_iterator(this, 0); } const_iterator end() const { return const_iterator(this, n); }
+  reverse_iterator rbegin() { return reverse_iterator(this, n); } reverse_iterator rend() { return reverse_iterator(this, 0); }
+  iterator find(const K& key) { return __has(key) ? iterator(this, lower(key)) : end(); }
+  bool contains(const K& key) const { return __has(key); } size_t count(const K& key) const { return __has(key) ? 1 : 0; } bool empty() const { return n == 0; } size_t size() const { return n; }
+  void insert(const slot& s) { if (__has(s.first)) return; __CPROVER_assert(n < MCAP, "ministl: map capacity (model bound)"); for (int k = 0; k < MCAP; k++) if (k == n) new (p[k]) slot(s); n++; }
+  template<class A2, class B2> void insert(const pair<A2, B2>& s) { insert(slot(K(s.first), V(s.second))); }
+  V& operator[](const K& key) { if (!__has(key)) insert(slot(key, V())); slot* r = p[0]; for (int k = 1; k < MCAP; k++) if (k < n && __eqk(p[k]->first, key)) r = p[k]; return r->second; }
+  V& at(const K& key) { __CPROVER_assert(__has(key), "ministl: map::at key not found (throws)"); return (*this)[key]; }
 };
 }
